@@ -630,6 +630,17 @@ pub fn run_property(prop: &Property, tier: Tier, seed: u64, only_part: Option<&s
         }
     }
     for rep in &reports {
+        if let Some((sig, msg, _)) = &rep.violation {
+            if sig.starts_with("harness-") {
+                // the harness could not set its own world up (ports, child processes, peers): that
+                // says nothing about the property
+                eprintln!("INCONCLUSIVE: part {}: [{}] {}", rep.name, sig, msg);
+                if exit == 0 {
+                    exit = 2;
+                }
+                continue;
+            }
+        }
         if let Some((sig, msg, case)) = &rep.violation {
             violations += 1;
             exit = 1;
